@@ -131,6 +131,9 @@ func (s *Sorter) Reset() {
 }
 
 func (s *Sorter) AddRow(row []string) error {
+	if err := objects.ValidateStrLens(row); err != nil {
+		return err
+	}
 	s.size += 4
 	for _, str := range row {
 		s.size += uint64(len(str)) + 2
@@ -185,6 +188,9 @@ func (s *Sorter) SortFile(f io.ReadCloser, pk []string) (err error) {
 	if err != nil {
 		return
 	}
+	if err = objects.ValidateStrLens(row); err != nil {
+		return
+	}
 	s.SetColumns(row)
 	s.PK, err = slice.KeyIndices(s.Columns, pk)
 	if err != nil {
@@ -198,7 +204,9 @@ func (s *Sorter) SortFile(f io.ReadCloser, pk []string) (err error) {
 		} else if err != nil {
 			return
 		}
-		s.AddRow(row)
+		if err = s.AddRow(row); err != nil {
+			return
+		}
 	}
 	if s.pt != nil {
 		s.pt.Done()
